@@ -236,7 +236,16 @@ func (p *parser) expr() (*Expr, error) {
 			if t.k != "id" {
 				return nil, fmt.Errorf("quantifier variable expected in %q", p.src)
 			}
-			vars = append(vars, t.s)
+			name := t.s
+			if p.isOp(":") {
+				p.p++
+				st := p.next()
+				if st.k != "id" {
+					return nil, fmt.Errorf("sort name expected after ':' in %q", p.src)
+				}
+				name += ":" + st.s
+			}
+			vars = append(vars, name)
 			if p.isOp(",") {
 				p.p++
 				continue
@@ -733,7 +742,7 @@ func ParseSpecFile(path, defaultPkg string) (*SpecFile, error) {
 				return nil, fail(fmt.Errorf("unroll outside loop"))
 			}
 			fmt.Sscanf(rest, "%d", &curLoop.Unroll)
-		case "inline", "pure", "wraps", "maypanic", "theory", "trusted", "nooverflow", "havocs", "bounded", "skip":
+		case "inline", "pure", "wraps", "maypanic", "theory", "trusted", "nooverflow", "havocs", "bounded", "skip", "alloc":
 			if cur == nil {
 				return nil, fail(fmt.Errorf("%s outside contract", kw))
 			}
